@@ -27,11 +27,23 @@ pub fn gen(seed: u64, _tier: Tier) -> ScenarioSpec {
         9 => [3, 15, 255],
         10 => [4, 0, rng.below(256) as u8],
         11..=12 => [3, rng.range(10, 30) as u8, rng.below(3) as u8],
+        13 => [3, rng.range(14, 16) as u8, 0],
         _ => [rng.below(256) as u8, rng.below(256) as u8, rng.below(256) as u8],
     };
     let version = if version[0] == 0 && version[1] == 0 { [0, 1, version[2]] } else { version };
     let cfg = GenCfg { size: Some(SizeClass::Tiny), max_version: None, force_version: Some(version), ..Default::default() };
-    let rec = gen::gen_recorder(&mut rng, &cfg);
+    let mut rec = gen::gen_recorder(&mut rng, &cfg);
+    // the guard is about the version, not about block lengths: a game whose Game Start / Game End
+    // blocks are longer than the version prescribes (kept verbatim by the reader) must be treated alike
+    // (only where the extra bytes cannot be mistaken for a later layout: the blocks of 3.14+ / 3.13+ are already the longest known ones)
+    let vv = (rec.version[0], rec.version[1]);
+    if rng.chance(1, 3) && crate::layout::gte(vv, (3, 14)) {
+        rec.extras.trailing.insert(crate::layout::CODE_START, 1 + rng.below(64) as u16);
+        if rng.chance(1, 2) {
+            rec.extras.trailing.insert(crate::layout::CODE_END, 1 + rng.below(8) as u16);
+        }
+        rec.extras.trailing_pseed = rng.next_u64();
+    }
     let mut spec = gen::base_spec(P, "S1", seed, rec);
     spec.compression = *rng.pick(&[Compression::None, Compression::Lz4, Compression::Zstd]);
     spec.sink = gen::gen_sink(&mut rng, false);
@@ -48,6 +60,8 @@ pub fn run(spec: &ScenarioSpec, ctx: &mut Ctx) -> Result<(), Violation> {
     ctx.probe_if(ver == (3, 16, 0), "exactly 3.16.0");
     ctx.probe_if(ver.0 == 3 && ver.1 == 16 && ver.2 > 0, "3.16.patch>0");
     ctx.probe_if(ver.0 > 3, "other major");
+    ctx.probe_if(!spec.recorder.extras.trailing.is_empty() && !newer, "longer Game Start/End block at or below the ceiling");
+    ctx.shape("trailing", spec.recorder.extras.trailing.len() as u64);
     let Some(game) = s1_read(P, spec, &m, ctx, false)? else { return Ok(()) };
     let w1 = write_slp(&game, &spec.sink);
     note_write(ctx, &w1);
